@@ -355,4 +355,12 @@ def S0(ctx):
     common.S0_ops(ctx, "C09.S0")
 
 
-RULES = [R1_R2_tables, R3_associated, R4_constructors, S0]
+def R5_conversion_sites(ctx):
+    """a conversion agrees with the physical factor only when it is asked the right way round: at the comparison of a vehicle
+    dimension with a restriction the receiver is the value's own unit and the argument the unit it is compared in (shared with
+    C04.R3; round 7: the per-axle arm converting the *limit* with the vehicle's unit as receiver and the restriction's as target)"""
+    from props.C04 import R3_predicates
+    R3_predicates(ctx)
+
+
+RULES = [R1_R2_tables, R3_associated, R4_constructors, S0, R5_conversion_sites]
